@@ -110,7 +110,38 @@ def hostile(rng, big=False):
     return data.replace(b'\n', b'\r\n'), 'crlf-log'
 
 
+def fixed_case(rng, base, idx):
+    """ deterministic cases the random classes reach too rarely """
+    d = os.path.join(base, f"c{idx}")
+    sdef = {'kind': 'simple', 'patterns': [r'.+ alpha (\d+)'], 'tag': 's0',
+            'hint': None, 'store': True, 'constraints': []}
+    if idx == 1:
+        # invalid bytes on exactly the FIRST line inside the window of a
+        # file-level constraint (the line the seek lands on), lenient policy
+        t0 = G.datetime(2022, 1, 10, 0, 0, 0)
+        ls = [(t0 + G.timedelta(hours=i)).strftime(G.TS_FMT).encode()
+              + b' alpha %d\n' % i for i in range(72)]
+        ls[36] = ls[36][:24] + b'\xff\xfe' + ls[36][24:]
+        data = b''.join(ls)
+        cons = [{'current': '2022-01-12 12:00:00', 'days': 0, 'hours': 24}]
+        policy = rng.choice(['ignore', 'replace', 'backslashreplace'])
+        cls, glob = 'invalid-bytes-on-first-in-window-line', 0
+    else:
+        # more lines than the progress-report interval of the read loop
+        data = b''.join(b'alpha %d\n' % i if i % 1000 == 0 else b'x\n'
+                        for i in range(100003))
+        cons, policy, cls, glob = [], None, 'hundred-thousand-lines', None
+    skrun.materialise(d, {'x.log': data})
+    run = {'global': glob, 'decode_errors': policy, 'max_parallel_tasks': 4,
+           'adds': [[0, 'x.log', True]], 'new_searcher': True}
+    recipe = {'dir': d, 'constraints': cons, 'defs': [sdef], 'runs': [run]}
+    return recipe, {'class': cls, 'data': data, 'policy': policy,
+                    'wide': False, 'global': glob is not None, 'nfiles': 1}
+
+
 def make_case(rng, base, idx, big):
+    if idx in (1, 2):
+        return fixed_case(rng, base, idx)
     data, cls = hostile(rng, big)
     if data[:2] == b'\x1f\x8b':
         data = b'a' + data          # gzip magic is outside the property
@@ -226,10 +257,11 @@ def judge(chk, recipe, meta, o, cases, wants, metas):
                               dict(brief, impl_lines=nread,
                                    expected=len(lines) - pinned))
                 return
-            cases.append(f"({'true' if strict else 'false'}, "
-                         f"{vlib.zl([int(v) for v in valid[pinned:]])})")
-            wants.append([nread])
-            metas.append(brief)
+            if len(lines) - pinned <= 20000:    # keep Coq literals small
+                cases.append(f"({'true' if strict else 'false'}, "
+                             f"{vlib.zl([int(v) for v in valid[pinned:]])})")
+                wants.append([nread])
+                metas.append(brief)
         searched = lines[len(lines) - nread:] if nread <= len(lines) else None
         if searched is None:
             chk.violation("more-lines-read-than-exist", dict(brief, impl=o))
